@@ -58,7 +58,7 @@ def main():
                 if os.path.exists(os.path.join(b, n, "patch.diff")) and (not args or n in args or any(n.startswith(a) or ("-" + a + "-") in n for a in args)):
                     dirs.append(os.path.join(b, n))
     results = {}
-    rp = os.path.join(VERIF, "seeded", "RESULTS.json")
+    rp = os.path.join(VERIF, "seeded", "RESULTS.json" if seed == 1 else "RESULTS-seed%d.json" % seed)
     if os.path.exists(rp):
         results = json.load(open(rp))
     with ThreadPoolExecutor(8 if tier == "quick" else 1) as ex:
